@@ -138,8 +138,9 @@ theorem find_filter_nodup {es : List Entry} (hnd : (es.map (·.id)).Nodup) (q : 
 def Wiped (e : Entry) : Prop :=
   e.member = [] ∧ e.dmo = [] ∧ e.rdmo = [] ∧ e.refers = none ∧ e.casc = none
 
-/-- What one committed transaction stamped `ts` can do to an entry that stays in the database. -/
-structure Evol (ts : Nat) (e e' : Entry) : Prop where
+/-- What one committed transaction stamped `ts` can do to an entry that stays in the database;
+`del` = the uuids this transaction moved into the recycle bin. -/
+structure Evol (ts : Nat) (del : List Nat) (e e' : Entry) : Prop where
   id : e'.id = e.id
   kind : e'.kind = e.kind
   live : e.st = .live → e'.st = .live ∨ (e'.st = .recycled ∧ e'.lastMod = ts)
@@ -147,9 +148,14 @@ structure Evol (ts : Nat) (e e' : Entry) : Prop where
     (e'.st = .recycled ∧ (e'.lastMod = e.lastMod ∨ e'.lastMod = ts)) ∨ e'.st = .live ∨
     (e'.st = .tomb ∧ e'.lastMod = ts ∧ e.lastMod + recyclebinMaxAge * NS < ts ∧ Wiped e')
   tomb : e.st = .tomb → e' = e
+  /-- while an entry stays in the bin its cascade mark is kept … -/
+  cascKeep : e.st = .recycled → e'.st = .recycled → e'.casc = e.casc
+  /-- … and so is every recorded membership, except of groups deleted by this transaction -/
+  rdmoKeep : e.st = .recycled → e'.st = .recycled → ∀ g ∈ e.rdmo, g ∈ e'.rdmo ∨ g ∈ del
 
-theorem Evol.rfl' (ts : Nat) (e : Entry) : Evol ts e e :=
-  ⟨rfl, rfl, fun _ => .inl ‹_›, fun h => .inl ⟨h, .inl rfl⟩, fun _ => rfl⟩
+theorem Evol.rfl' (ts : Nat) (del : List Nat) (e : Entry) : Evol ts del e e :=
+  ⟨rfl, rfl, fun _ => .inl ‹_›, fun h => .inl ⟨h, .inl rfl⟩, fun _ => rfl, fun _ _ => rfl,
+    fun _ _ _ hg => .inl hg⟩
 
 theorem recE_id (aff : Entry → Bool) (es0 : List Entry) (e : Entry) : (recE aff es0 e).id = e.id := by
   unfold recE; split <;> rfl
@@ -166,10 +172,12 @@ theorem recE_not_live (aff : Entry → Bool) (es0 : List Entry) (e : Entry) (h :
   have : (e.st == St.live) = false := by simpa using h
   simp [this]
 
-theorem Evol.through_rec {ts : Nat} {e e1 : Entry} (h : Evol ts e e1) (aff : Entry → Bool) (es0 : List Entry) :
-    Evol ts e (recE aff es0 e1) := by
-  obtain ⟨hk, hs, hl, _, _, _, _⟩ := recE_fields aff es0 e1
-  refine ⟨by rw [recE_id]; exact h.id, by rw [hk]; exact h.kind, ?_, ?_, ?_⟩
+theorem Evol.through_rec {ts : Nat} {del : List Nat} {e e1 : Entry} (h : Evol ts del e e1)
+    (aff : Entry → Bool) (es0 : List Entry) : Evol ts del e (recE aff es0 e1) := by
+  obtain ⟨hk, hs, hl, _, hrd, _, hca⟩ := recE_fields aff es0 e1
+  refine ⟨by rw [recE_id]; exact h.id, by rw [hk]; exact h.kind, ?_, ?_, ?_,
+    fun h1 h2 => by rw [hca]; exact h.cascKeep h1 (by rw [← hs]; exact h2),
+    fun h1 h2 g hg => by rw [hrd]; exact h.rdmoKeep h1 (by rw [← hs]; exact h2) g hg⟩
   · intro hl'; rw [hs, hl]; exact h.live hl'
   · intro hr
     rcases h.recy hr with h1 | h1 | ⟨h1, h2, h3, h4⟩
@@ -183,12 +191,13 @@ theorem Evol.through_rec {ts : Nat} {e e1 : Entry} (h : Evol ts e e1) (aff : Ent
     exact recE_not_live aff es0 e1 (by rw [ht]; decide)
 
 /-- an update of `member` only, never applied to a tombstone -/
-theorem Evol.member_only (ts : Nat) (e : Entry) (ms : List Nat) (c : Bool) (hc : e.st = .tomb → c = false) :
-    Evol ts e (if c then { e with member := ms } else e) := by
+theorem Evol.member_only (ts : Nat) (del : List Nat) (e : Entry) (ms : List Nat) (c : Bool)
+    (hc : e.st = .tomb → c = false) : Evol ts del e (if c then { e with member := ms } else e) := by
   cases c with
-  | false => simpa using Evol.rfl' ts e
+  | false => simpa using Evol.rfl' ts del e
   | true =>
-    refine ⟨rfl, rfl, fun h => .inl h, fun h => .inl ⟨h, .inl rfl⟩, fun h => ?_⟩
+    refine ⟨rfl, rfl, fun h => .inl h, fun h => .inl ⟨h, .inl rfl⟩, fun h => ?_, fun _ _ => rfl,
+      fun _ _ _ hg => .inl hg⟩
     simpa using hc h
 
 theorem inD_live {es : List Entry} {ids : List Nat} {e : Entry} (h : inD es ids e = true) : e.st = .live := by
@@ -227,9 +236,19 @@ theorem addMemE_id (g m : Nat) (e : Entry) : (addMemE g m e).id = e.id := by
 theorem remMemE_id (g m : Nat) (e : Entry) : (remMemE g m e).id = e.id := by
   unfold remMemE; split <;> rfl
 
+theorem unref_recycle_st (es : List Entry) (ids d : List Nat) (ts : Nat) {e : Entry}
+    (hD : inD es ids e = true) :
+    (unrefE d ts (recycleE es ids ts e)).st = .recycled ∧
+    (unrefE d ts (recycleE es ids ts e)).lastMod = ts ∧
+    (unrefE d ts (recycleE es ids ts e)).kind = e.kind := by
+  have h1 : (recycleE es ids ts e).st = .recycled ∧ (recycleE es ids ts e).lastMod = ts ∧
+      (recycleE es ids ts e).kind = e.kind := by
+    unfold recycleE; simp [hD]
+  unfold unrefE; split <;> simp [h1]
+
 /-- delete: `pre_delete` + `to_recycled`, then `refint::remove_references`. -/
 theorem evol_delete (es : List Entry) (ids d : List Nat) (ts : Nat) (e : Entry)
-    (hw : e.st = .tomb → Wiped e) : Evol ts e (unrefE d ts (recycleE es ids ts e)) := by
+    (hw : e.st = .tomb → Wiped e) : Evol ts d e (unrefE d ts (recycleE es ids ts e)) := by
   by_cases hD : inD es ids e = true
   · have hl := inD_live hD
     have h1 : (recycleE es ids ts e).st = .recycled ∧ (recycleE es ids ts e).lastMod = ts ∧
@@ -239,7 +258,9 @@ theorem evol_delete (es : List Entry) (ids d : List Nat) (ts : Nat) (e : Entry)
         (unrefE d ts (recycleE es ids ts e)).lastMod = ts ∧
         (unrefE d ts (recycleE es ids ts e)).kind = e.kind := by
       unfold unrefE; split <;> simp [h1]
-    refine ⟨by rw [unrefE_id, recycleE_id], h2.2.2, fun _ => .inr ⟨h2.1, h2.2.1⟩, ?_, ?_⟩
+    refine ⟨by rw [unrefE_id, recycleE_id], h2.2.2, fun _ => .inr ⟨h2.1, h2.2.1⟩, ?_, ?_, ?_, ?_⟩
+    · intro h; rw [hl] at h; cases h
+    · intro h; rw [hl] at h; cases h
     · intro h; rw [hl] at h; cases h
     · intro h; rw [hl] at h; cases h
   · have hD' : inD es ids e = false := by simpa using hD
@@ -248,15 +269,23 @@ theorem evol_delete (es : List Entry) (ids d : List Nat) (ts : Nat) (e : Entry)
     by_cases hrf : refsAny d e = true
     · have h2 : (unrefE d ts e).st = e.st ∧ (unrefE d ts e).lastMod = ts ∧ (unrefE d ts e).kind = e.kind := by
         unfold unrefE; simp [hrf]
+      have h3 : (unrefE d ts e).casc = e.casc ∧
+          (unrefE d ts e).rdmo = e.rdmo.filter (fun m => !d.contains m) := by
+        unfold unrefE; simp [hrf]
       refine ⟨unrefE_id d ts e, h2.2.2, fun h => .inl (by rw [h2.1]; exact h),
-        fun h => .inl ⟨by rw [h2.1]; exact h, .inr h2.2.1⟩, fun h => ?_⟩
-      rw [refsAny_wiped (hw h)] at hrf; cases hrf
+        fun h => .inl ⟨by rw [h2.1]; exact h, .inr h2.2.1⟩, fun h => ?_, fun _ _ => h3.1, ?_⟩
+      · rw [refsAny_wiped (hw h)] at hrf; cases hrf
+      · intro _ _ g hg
+        rw [h3.2]
+        by_cases hgd : g ∈ d
+        · exact .inr hgd
+        · exact .inl (List.mem_filter.mpr ⟨hg, by simpa using hgd⟩)
     · have : unrefE d ts e = e := by unfold unrefE; simp [hrf]
-      rw [this]; exact Evol.rfl' ts e
+      rw [this]; exact Evol.rfl' ts d e
 
 /-- revive: `to_revived`, then the membership mods of the revive tail. -/
 theorem evol_revive (es : List Entry) (x ts : Nat) (e : Entry) :
-    Evol ts e (reviveAddE es x (reviveE x ts e)) := by
+    Evol ts [] e (reviveAddE es x (reviveE x ts e)) := by
   by_cases hR : inR x e = true
   · have hrec := inR_recycled hR
     have h1 : (reviveE x ts e).st = .live ∧ (reviveE x ts e).kind = e.kind := by
@@ -264,30 +293,34 @@ theorem evol_revive (es : List Entry) (x ts : Nat) (e : Entry) :
     have h2 : (reviveAddE es x (reviveE x ts e)).st = .live ∧
         (reviveAddE es x (reviveE x ts e)).kind = e.kind := by
       unfold reviveAddE; split <;> simp [h1]
-    refine ⟨by rw [reviveAddE_id, reviveE_id], h2.2, ?_, fun _ => .inr (.inl h2.1), ?_⟩
+    refine ⟨by rw [reviveAddE_id, reviveE_id], h2.2, ?_, fun _ => .inr (.inl h2.1), ?_, ?_, ?_⟩
     · intro h; rw [hrec] at h; cases h
     · intro h; rw [hrec] at h; cases h
+    · intro _ h; rw [h2.1] at h; cases h
+    · intro _ h; rw [h2.1] at h; cases h
   · have : reviveE x ts e = e := by
       have hR' : inR x e = false := by simpa using hR
       unfold reviveE; simp [hR']
     rw [this]
     unfold reviveAddE
-    exact Evol.member_only ts e _ _ (fun h => by simp [h])
+    exact Evol.member_only ts [] e _ _ (fun h => by simp [h])
 
 /-- `purge_recycled`: `to_tombstone` of the selected entries. -/
 theorem evol_purge {ts sid : Nat} {cut : Cid.Cid} (h : subSecs ts purgeRecycledWindow = some cut)
-    (e : Entry) : Evol ts e (purgeE sid cut ts e) := by
+    (e : Entry) : Evol ts [] e (purgeE sid cut ts e) := by
   by_cases hs : purgeSel sid cut e = true
   · obtain ⟨hrec, hlt⟩ := (purgeSel_iff h e).mp hs
     have : purgeE sid cut ts e = tombE ts e := by unfold purgeE; simp [hs]
     rw [this]
-    refine ⟨rfl, rfl, ?_, fun _ => .inr (.inr ⟨rfl, rfl, hlt, rfl, rfl, rfl, rfl, rfl⟩), ?_⟩
+    refine ⟨rfl, rfl, ?_, fun _ => .inr (.inr ⟨rfl, rfl, hlt, rfl, rfl, rfl, rfl, rfl⟩), ?_, ?_, ?_⟩
     · intro h; rw [hrec] at h; cases h
     · intro h; rw [hrec] at h; cases h
+    · intro _ h; cases h
+    · intro _ h; cases h
   · have : purgeE sid cut ts e = e := by
       have hs' : purgeSel sid cut e = false := by simpa using hs
       unfold purgeE; simp [hs']
-    rw [this]; exact Evol.rfl' ts e
+    rw [this]; exact Evol.rfl' ts [] e
 
 /-! ## the state invariant and the shape of every successful operation -/
 
@@ -299,22 +332,28 @@ structure Inv (s : State) : Prop where
 
 /-- The entries after a successful operation: every old entry rewritten by some `F` that keeps
 uuids and evolves each entry legally, plus at most one new live entry with a fresh uuid. -/
-def Shape (es : List Entry) (ts : Nat) (es' : List Entry) : Prop :=
+def Shape (es : List Entry) (ts : Nat) (del : List Nat) (es' : List Entry) : Prop :=
   ∃ (F : Entry → Entry) (tail : List Entry),
-    es' = es.map F ++ tail ∧ (∀ e, (F e).id = e.id) ∧ (∀ e ∈ es, Evol ts e (F e)) ∧
-    (tail = [] ∨ ∃ nw, tail = [nw] ∧ nw.st = .live ∧ find es nw.id = none)
+    es' = es.map F ++ tail ∧ (∀ e, (F e).id = e.id) ∧ (∀ e ∈ es, Evol ts del e (F e)) ∧
+    (tail = [] ∨ ∃ nw, tail = [nw] ∧ nw.st = .live ∧ find es nw.id = none) ∧
+    (∀ g ∈ del, ∃ ge ∈ es, ge.id = g ∧ (F ge).st = .recycled)
 
-theorem Shape.same (es : List Entry) (ts : Nat) : Shape es ts es :=
-  ⟨id, [], by simp, fun _ => rfl, fun e _ => Evol.rfl' ts e, .inl rfl⟩
+theorem Shape.same (es : List Entry) (ts : Nat) : Shape es ts [] es :=
+  ⟨id, [], by simp, fun _ => rfl, fun e _ => Evol.rfl' ts [] e, .inl rfl, by simp⟩
 
-theorem Shape.rec (es : List Entry) (ts : Nat) (aff : Entry → Bool) : Shape es ts (recompute aff es) :=
-  ⟨recE aff es, [], by simp [recompute], recE_id aff es, fun e _ => (Evol.rfl' ts e).through_rec aff es, .inl rfl⟩
+theorem Shape.rec (es : List Entry) (ts : Nat) (aff : Entry → Bool) : Shape es ts [] (recompute aff es) :=
+  ⟨recE aff es, [], by simp [recompute], recE_id aff es,
+    fun e _ => (Evol.rfl' ts [] e).through_rec aff es, .inl rfl, by simp⟩
 
-theorem Shape.map_rec (es : List Entry) (ts : Nat) (aff : Entry → Bool) (G : Entry → Entry)
-    (hid : ∀ e, (G e).id = e.id) (hev : ∀ e ∈ es, Evol ts e (G e)) :
-    Shape es ts (recompute aff (es.map G)) :=
+theorem Shape.map_rec (es : List Entry) (ts : Nat) (del : List Nat) (aff : Entry → Bool) (G : Entry → Entry)
+    (hid : ∀ e, (G e).id = e.id) (hev : ∀ e ∈ es, Evol ts del e (G e))
+    (hdel : ∀ g ∈ del, ∃ ge ∈ es, ge.id = g ∧ (G ge).st = .recycled) :
+    Shape es ts del (recompute aff (es.map G)) :=
   ⟨fun e => recE aff (es.map G) (G e), [], by simp [recompute, List.map_map, Function.comp_def],
-    fun e => by rw [recE_id]; exact hid e, fun e he => (hev e he).through_rec aff _, .inl rfl⟩
+    fun e => by rw [recE_id]; exact hid e, fun e he => (hev e he).through_rec aff _, .inl rfl,
+    fun g hg => by
+      obtain ⟨ge, he, hid', hst⟩ := hdel g hg
+      exact ⟨ge, he, hid', by rw [(recE_fields _ _ _).2.1]; exact hst⟩⟩
 
 theorem live_of_find_nodup {es : List Entry} (hnd : (es.map (·.id)).Nodup) {g : Nat} {ge e : Entry}
     (hg : find es g = some ge) (he : e ∈ es) (hid : e.id = g) : e = ge := by
@@ -323,7 +362,7 @@ theorem live_of_find_nodup {es : List Entry} (hnd : (es.map (·.id)).Nodup) {g :
   exact (Option.some.inj this).symm
 
 theorem opCreate_shape (es : List Entry) (ts id : Nat) (k : Kind) (ms : List Nat) (r : Option Nat)
-    (es' : List Entry) (n : Option Nat) (h : opCreate es ts id k ms r = .ok es' n) : Shape es ts es' := by
+    (es' : List Entry) (n : Option Nat) (h : opCreate es ts id k ms r = .ok es' n) : Shape es ts [] es' := by
   unfold opCreate at h
   split at h
   · cases h
@@ -332,10 +371,10 @@ theorem opCreate_shape (es : List Entry) (ts id : Nat) (k : Kind) (ms : List Nat
       cases hf : find es id with
       | none => rfl
       | some _ => simp [hf] at hfresh
-    have key : ∀ aff, Shape es ts (recompute aff (es ++ [newEntry id k ts ms r])) := by
+    have key : ∀ aff, Shape es ts [] (recompute aff (es ++ [newEntry id k ts ms r])) := by
       intro aff
       refine ⟨recE aff (es ++ [newEntry id k ts ms r]), [recE aff (es ++ [newEntry id k ts ms r]) (newEntry id k ts ms r)],
-        by simp [recompute], recE_id aff _, fun e _ => (Evol.rfl' ts e).through_rec aff _, .inr ⟨_, rfl, ?_, ?_⟩⟩
+        by simp [recompute], recE_id aff _, fun e _ => (Evol.rfl' ts [] e).through_rec aff _, .inr ⟨_, rfl, ?_, ?_⟩, by simp⟩
       · rw [(recE_fields aff _ _).2.1]; rfl
       · rw [recE_id]; exact hnone
     split at h
@@ -353,7 +392,7 @@ theorem opCreate_shape (es : List Entry) (ts id : Nat) (k : Kind) (ms : List Nat
               · cases h; exact key _
 
 theorem opAdd_shape (es : List Entry) (hnd : (es.map (·.id)).Nodup) (ts g m : Nat)
-    (es' : List Entry) (n : Option Nat) (h : opAdd es g m = .ok es' n) : Shape es ts es' := by
+    (es' : List Entry) (n : Option Nat) (h : opAdd es g m = .ok es' n) : Shape es ts [] es' := by
   unfold opAdd at h
   split at h
   · cases h; exact Shape.same es ts
@@ -371,16 +410,16 @@ theorem opAdd_shape (es : List Entry) (hnd : (es.map (·.id)).Nodup) (ts g m : N
           · split at h
             · cases h
             · cases h
-              refine Shape.map_rec es ts _ (addMemE g m) (addMemE_id g m) (fun e he => ?_)
+              refine Shape.map_rec es ts [] _ (addMemE g m) (addMemE_id g m) (fun e he => ?_) (by simp)
               unfold addMemE
-              refine Evol.member_only ts e _ _ (fun ht => ?_)
+              refine Evol.member_only ts [] e _ _ (fun ht => ?_)
               by_cases hid : e.id = g
               · have := live_of_find_nodup hnd hg he hid
                 rw [this, hl] at ht; cases ht
               · simpa using hid
 
 theorem opRem_shape (es : List Entry) (hnd : (es.map (·.id)).Nodup) (ts g m : Nat)
-    (es' : List Entry) (n : Option Nat) (h : opRem es g m = .ok es' n) : Shape es ts es' := by
+    (es' : List Entry) (n : Option Nat) (h : opRem es g m = .ok es' n) : Shape es ts [] es' := by
   unfold opRem at h
   split at h
   · cases h; exact Shape.same es ts
@@ -392,16 +431,16 @@ theorem opRem_shape (es : List Entry) (hnd : (es.map (·.id)).Nodup) (ts g m : N
       split at h
       · cases h; exact Shape.rec es ts _
       · cases h
-        refine Shape.map_rec es ts _ (remMemE g m) (remMemE_id g m) (fun e he => ?_)
+        refine Shape.map_rec es ts [] _ (remMemE g m) (remMemE_id g m) (fun e he => ?_) (by simp)
         unfold remMemE
-        refine Evol.member_only ts e _ _ (fun ht => ?_)
+        refine Evol.member_only ts [] e _ _ (fun ht => ?_)
         by_cases hid : e.id = g
         · have := live_of_find_nodup hnd hg he hid
           rw [this, hl] at ht; cases ht
         · simpa using hid
 
 theorem opDelete_shape (es : List Entry) (hw : ∀ e ∈ es, e.st = .tomb → Wiped e) (ts : Nat) (ids : List Nat)
-    (es' : List Entry) (n : Option Nat) (h : opDelete es ts ids = .ok es' n) : Shape es ts es' := by
+    (es' : List Entry) (n : Option Nat) (h : opDelete es ts ids = .ok es' n) : ∃ del, Shape es ts del es' := by
   unfold opDelete at h
   split at h
   · cases h
@@ -411,11 +450,15 @@ theorem opDelete_shape (es : List Entry) (hw : ∀ e ∈ es, e.st = .tomb → Wi
       · cases h
       · simp only [List.map_map] at h
         cases h
-        exact Shape.map_rec es ts _ _ (fun e => by simp [unrefE_id, recycleE_id])
-          (fun e he => evol_delete es ids _ ts e (hw e he))
+        refine ⟨_, Shape.map_rec es ts _ _ _ (fun e => by simp [unrefE_id, recycleE_id])
+          (fun e he => evol_delete es ids _ ts e (hw e he)) ?_⟩
+        intro g hg
+        obtain ⟨ge, hge, rfl⟩ := List.mem_map.mp hg
+        obtain ⟨he, hD⟩ := List.mem_filter.mp hge
+        exact ⟨ge, he, rfl, (unref_recycle_st es ids _ ts hD).1⟩
 
 theorem opRevive_shape (es : List Entry) (ts x : Nat)
-    (es' : List Entry) (n : Option Nat) (h : opRevive es ts x = .ok es' n) : Shape es ts es' := by
+    (es' : List Entry) (n : Option Nat) (h : opRevive es ts x = .ok es' n) : Shape es ts [] es' := by
   unfold opRevive at h
   split at h
   · cases h
@@ -429,31 +472,31 @@ theorem opRevive_shape (es : List Entry) (ts x : Nat)
           · cases h
           · simp only [List.map_map] at h
             cases h
-            exact Shape.map_rec es ts _ _ (fun e => by simp [reviveAddE_id, reviveE_id])
-              (fun e _ => evol_revive es x ts e)
+            exact Shape.map_rec es ts [] _ _ (fun e => by simp [reviveAddE_id, reviveE_id])
+              (fun e _ => evol_revive es x ts e) (by simp)
 
 theorem opPurgeRecycled_shape (es : List Entry) (ts sid : Nat)
-    (es' : List Entry) (n : Option Nat) (h : opPurgeRecycled es ts sid = .ok es' n) : Shape es ts es' := by
+    (es' : List Entry) (n : Option Nat) (h : opPurgeRecycled es ts sid = .ok es' n) : Shape es ts [] es' := by
   unfold opPurgeRecycled at h
   split at h
   · cases h
   · rename_i cut hcut
     cases h
-    exact ⟨purgeE sid cut ts, [], by simp, purgeE_id sid cut ts, fun e _ => evol_purge hcut e, .inl rfl⟩
+    exact ⟨purgeE sid cut ts, [], by simp, purgeE_id sid cut ts, fun e _ => evol_purge hcut e, .inl rfl, by simp⟩
 
 theorem applyOp_shape (s : State) (hi : Inv s) (ts : Nat) (trim : Cid.Cid) (op : Op)
     (es' : List Entry) (n : Option Nat) (hop : op ≠ .purgeTombstones)
-    (h : applyOp s ts trim op = .ok es' n) : Shape s.es ts es' := by
+    (h : applyOp s ts trim op = .ok es' n) : ∃ del, Shape s.es ts del es' := by
   cases op <;> simp only [applyOp] at h
-  case createPerson id => exact opCreate_shape _ _ _ _ _ _ _ _ h
-  case createGroup id ms => exact opCreate_shape _ _ _ _ _ _ _ _ h
-  case createCert id p => exact opCreate_shape _ _ _ _ _ _ _ _ h
-  case addMember g m => exact opAdd_shape _ hi.nodup _ _ _ _ _ h
-  case remMember g m => exact opRem_shape _ hi.nodup _ _ _ _ _ h
-  case touch x => cases h; exact Shape.rec _ _ _
+  case createPerson id => exact ⟨_, opCreate_shape _ _ _ _ _ _ _ _ h⟩
+  case createGroup id ms => exact ⟨_, opCreate_shape _ _ _ _ _ _ _ _ h⟩
+  case createCert id p => exact ⟨_, opCreate_shape _ _ _ _ _ _ _ _ h⟩
+  case addMember g m => exact ⟨_, opAdd_shape _ hi.nodup _ _ _ _ _ h⟩
+  case remMember g m => exact ⟨_, opRem_shape _ hi.nodup _ _ _ _ _ h⟩
+  case touch x => cases h; exact ⟨_, Shape.rec _ _ _⟩
   case delete ids => exact opDelete_shape _ hi.wiped _ _ _ _ h
-  case revive x => exact opRevive_shape _ _ _ _ _ h
-  case purgeRecycled => exact opPurgeRecycled_shape _ _ _ _ _ h
+  case revive x => exact ⟨_, opRevive_shape _ _ _ _ _ h⟩
+  case purgeRecycled => exact ⟨_, opPurgeRecycled_shape _ _ _ _ _ h⟩
   case purgeTombstones => exact absurd rfl hop
 
 /-! ## one transaction, seen from one uuid -/
@@ -478,21 +521,23 @@ theorem next_eq (s : State) (ct : Nat) (op : Op) :
     | panic => exact .inl rfl
 
 /-- What a committed transaction stamped `ts` did, seen from uuid `x`. -/
-structure StepFacts (s s' : State) (ts : Nat) (op : Op) (x : Nat) : Prop where
+structure StepFacts (s s' : State) (ts : Nat) (op : Op) (x : Nat) (del : List Nat) : Prop where
   maxTs : s'.maxTs = ts
   sid : s'.sid = s.sid
+  /-- the uuids this transaction deleted are in the recycle bin afterwards -/
+  dead : ∀ g ∈ del, ∃ ge', find s'.es g = some ge' ∧ ge'.st = .recycled
   old : ∀ e, find s.es x = some e →
-    (∃ e', find s'.es x = some e' ∧ Evol ts e e') ∨
+    (∃ e', find s'.es x = some e' ∧ Evol ts del e e') ∨
     (find s'.es x = none ∧ op = .purgeTombstones ∧ e.st = .tomb ∧ e.lastMod + changelogMaxAge * NS < ts)
   fresh : find s.es x = none → find s'.es x = none ∨ ∃ e', find s'.es x = some e' ∧ e'.st = .live
 
 theorem find_append' (l1 l2 : List Entry) (x : Nat) : find (l1 ++ l2) x = (find l1 x).or (find l2 x) := by
   simp [find, List.find?_append]
 
-theorem shape_find {es es' : List Entry} {ts : Nat} (h : Shape es ts es') (x : Nat) :
-    (∀ e, find es x = some e → ∃ e', find es' x = some e' ∧ Evol ts e e') ∧
+theorem shape_find {es es' : List Entry} {ts : Nat} {del : List Nat} (h : Shape es ts del es') (x : Nat) :
+    (∀ e, find es x = some e → ∃ e', find es' x = some e' ∧ Evol ts del e e') ∧
     (find es x = none → find es' x = none ∨ ∃ e', find es' x = some e' ∧ e'.st = .live) := by
-  obtain ⟨F, tail, rfl, hid, hev, htail⟩ := h
+  obtain ⟨F, tail, rfl, hid, hev, htail, _⟩ := h
   constructor
   · intro e he
     refine ⟨F e, ?_, hev e (find_some_mem he).1⟩
@@ -505,34 +550,9 @@ theorem shape_find {es es' : List Entry} {ts : Nat} (h : Shape es ts es') (x : N
       · exact .inr ⟨nw, by simp [find, hx], hl⟩
       · exact .inl (by simp [find, hx])
 
-theorem next_facts {s : State} (hi : Inv s) (ct : Nat) (op : Op) (x : Nat) :
-    next s ct op = s ∨ StepFacts s (next s ct op) (txnTs s ct) op x := by
-  rcases next_eq s ct op with h | ⟨trim, es', n, hsub, hap, hnext⟩
-  · exact .inl h
-  · refine .inr ?_
-    rw [hnext]
-    by_cases hop : op = .purgeTombstones
-    · subst hop
-      simp only [applyOp, opPurgeTombstones] at hap
-      cases hap
-      refine ⟨rfl, rfl, ?_, ?_⟩
-      · intro e he
-        simp only
-        rw [find_filter_nodup hi.nodup, he]
-        by_cases hr : reapSel s.sid trim e = true
-        · obtain ⟨h1, h2⟩ := (reapSel_iff hsub e).mp hr
-          exact .inr ⟨by simp [hr], trivial, h1, h2⟩
-        · exact .inl ⟨e, by simp [hr], Evol.rfl' _ e⟩
-      · intro hn
-        simp only
-        rw [find_filter_nodup hi.nodup, hn]
-        exact .inl rfl
-    · have hs := shape_find (applyOp_shape s hi _ trim op es' n hop hap) x
-      exact ⟨rfl, rfl, fun e he => .inl (hs.1 e he), hs.2⟩
-
 theorem shape_inv {s : State} (hi : Inv s) {ts : Nat} (hts : s.maxTs < ts) {es' : List Entry}
-    (h : Shape s.es ts es') : Inv { s with es := es', maxTs := ts } := by
-  obtain ⟨F, tail, rfl, hid, hev, htail⟩ := h
+    {del : List Nat} (h : Shape s.es ts del es') : Inv { s with es := es', maxTs := ts } := by
+  obtain ⟨F, tail, rfl, hid, hev, htail, _⟩ := h
   have hmapid : (s.es.map F).map (·.id) = s.es.map (·.id) := by
     simp [List.map_map, Function.comp_def, hid]
   refine ⟨?_, ?_, ?_⟩
@@ -605,7 +625,43 @@ theorem inv_next {s : State} (hi : Inv s) (ct : Nat) (op : Op) : Inv (next s ct 
         simp only; omega
       · intro e he
         exact hi.wiped e (List.mem_filter.mp he).1
-    · exact shape_inv hi (txnTs_gt s ct) (applyOp_shape s hi _ trim op es' n hop hap)
+    · obtain ⟨del, hsh⟩ := applyOp_shape s hi _ trim op es' n hop hap
+      exact shape_inv hi (txnTs_gt s ct) hsh
+
+theorem next_facts {s : State} (hi : Inv s) (ct : Nat) (op : Op) (x : Nat) :
+    next s ct op = s ∨ ∃ del, StepFacts s (next s ct op) (txnTs s ct) op x del := by
+  rcases next_eq s ct op with h | ⟨trim, es', n, hsub, hap, hnext⟩
+  · exact .inl h
+  · refine .inr ?_
+    have hinv' := inv_next hi ct op
+    rw [hnext] at hinv' ⊢
+    by_cases hop : op = .purgeTombstones
+    · subst hop
+      simp only [applyOp, opPurgeTombstones] at hap
+      cases hap
+      refine ⟨[], rfl, rfl, by simp, ?_, ?_⟩
+      · intro e he
+        simp only
+        rw [find_filter_nodup hi.nodup, he]
+        by_cases hr : reapSel s.sid trim e = true
+        · obtain ⟨h1, h2⟩ := (reapSel_iff hsub e).mp hr
+          exact .inr ⟨by simp [hr], trivial, h1, h2⟩
+        · exact .inl ⟨e, by simp [hr], Evol.rfl' _ _ e⟩
+      · intro hn
+        simp only
+        rw [find_filter_nodup hi.nodup, hn]
+        exact .inl rfl
+    · obtain ⟨del, hsh⟩ := applyOp_shape s hi _ trim op es' n hop hap
+      have hs := shape_find hsh x
+      refine ⟨del, rfl, rfl, ?_, fun e he => .inl (hs.1 e he), hs.2⟩
+      intro g hg
+      obtain ⟨F, tail, rfl, hid, _, _, hdel⟩ := hsh
+      obtain ⟨ge, he, hgid, hst⟩ := hdel g hg
+      refine ⟨F ge, ?_, hst⟩
+      have hm : F ge ∈ s.es.map F ++ tail := List.mem_append_left _ (List.mem_map_of_mem he)
+      have := find_of_mem_nodup hinv'.nodup hm
+      rw [hid, hgid] at this
+      exact this
 
 theorem inv_run {s : State} (hi : Inv s) (steps : List (Nat × Op)) : Inv (run s steps) := by
   induction steps generalizing s with
@@ -680,6 +736,50 @@ theorem delete_find {s : State} {ct : Nat} {ids : List Nat} {es' : List Entry} {
         · rw [(recE_fields _ _ _).2.1]; exact (h2 _).1
         · rw [(recE_fields _ _ _).2.2.1]; exact (h2 _).2
 
+/-- `pre_delete` stashes the direct memberships: every group of the deleted entry's
+directmemberof is in its recycled_directmemberof afterwards, unless the same request deleted
+the group too (then the group is in the bin afterwards). -/
+theorem delete_stash {s : State} (hi : Inv s) {ct : Nat} {ids : List Nat} {es' : List Entry}
+    {n : Option Nat} (h : apply s ct (.delete ids) = .ok es' n) {x : Nat} {e : Entry}
+    (hfe : find s.es x = some e) (hel : e.st = .live) (hx : x ∈ ids) :
+    ∃ e', find es' x = some e' ∧
+      ∀ g ∈ e.dmo, g ∈ e'.rdmo ∨ ∃ ge', find es' g = some ge' ∧ ge'.st = .recycled := by
+  obtain ⟨trim, _, hap⟩ := apply_ok h
+  simp only [applyOp, opDelete] at hap
+  split at hap
+  · cases hap
+  · split at hap
+    · cases hap
+    · split at hap
+      · cases hap
+      · simp only [List.map_map] at hap
+        cases hap
+        have hidx : e.id = x := (find_some_mem hfe).2
+        have hD : inD s.es ids e = true := by
+          simp [inD, inT, hel, hidx, hx]
+        have hidF : ∀ a : Entry, (((unrefE ((s.es.filter (inD s.es ids)).map (·.id)) (txnTs s ct)) ∘
+            recycleE s.es ids (txnTs s ct)) a).id = a.id := fun a => by
+          simp [unrefE_id, recycleE_id]
+        refine ⟨_, by rw [find_recompute, find_map _ hidF, hfe]; rfl, ?_⟩
+        intro g hg
+        rw [(recE_fields _ _ _).2.2.2.2.1]
+        simp only [Function.comp_apply]
+        have h1 : (recycleE s.es ids (txnTs s ct) e).rdmo = e.dmo := by
+          unfold recycleE; simp [hD, preDeleteStashesDmo]
+        by_cases hgd : g ∈ (s.es.filter (inD s.es ids)).map (·.id)
+        · right
+          obtain ⟨ge, hge, rfl⟩ := List.mem_map.mp hgd
+          obtain ⟨he, hDg⟩ := List.mem_filter.mp hge
+          refine ⟨_, by rw [find_recompute, find_map _ hidF, find_of_mem_nodup hi.nodup he]; rfl, ?_⟩
+          rw [(recE_fields _ _ _).2.1]
+          exact (unref_recycle_st s.es ids _ _ hDg).1
+        · left
+          unfold unrefE
+          split
+          · simp only [h1]
+            exact List.mem_filter.mpr ⟨hg, by simpa using hgd⟩
+          · rw [h1]; exact hg
+
 /-- The entries after a successful revive, spelled out. -/
 theorem opRevive_ok {es : List Entry} {ts x : Nat} {es' : List Entry} {n : Option Nat}
     (h : opRevive es ts x = .ok es' n) :
@@ -725,7 +825,7 @@ theorem not_tomb_step {s : State} (hi : Inv s) {d x : Nat} (hd : d ≤ s.maxTs) 
     (hp : ∃ e, find s.es x = some e ∧ e.st ≠ .tomb ∧ (e.st = .recycled → d ≤ e.lastMod))
     (hwin : (next s ct op).maxTs ≤ d + recyclebinMaxAge * NS) :
     ∃ e, find (next s ct op).es x = some e ∧ e.st ≠ .tomb ∧ (e.st = .recycled → d ≤ e.lastMod) := by
-  rcases next_facts hi ct op x with h | hf
+  rcases next_facts hi ct op x with h | ⟨del, hf⟩
   · rw [h]; exact hp
   · obtain ⟨e, hfe, hnt, hrd⟩ := hp
     have hgt := txnTs_gt s ct
@@ -773,7 +873,7 @@ theorem tomb_step {s : State} (hi : Inv s) {x : Nat} {e : Entry} (hx : find s.es
     find (next s ct op).es x = some e ∨
     (find (next s ct op).es x = none ∧ op = .purgeTombstones ∧
       e.lastMod + changelogMaxAge * NS < txnTs s ct ∧ (next s ct op).maxTs = txnTs s ct) := by
-  rcases next_facts hi ct op x with h | hf
+  rcases next_facts hi ct op x with h | ⟨del, hf⟩
   · rw [h]; exact .inl hx
   · rcases hf.old e hx with ⟨e', hfe', ev⟩ | ⟨h1, h2, _, h4⟩
     · rw [ev.tomb ht] at hfe'; exact .inl hfe'
@@ -868,5 +968,97 @@ theorem revive_find {es : List Entry} {ts x : Nat} {es' : List Entry} {n : Optio
       · rw [(recE_fields _ _ _).2.1]; simp only [hge1, hf2.1]; exact hgl
       · rw [(recE_fields _ _ _).1]; simp only [hge1, hf2.2.1]; exact hgk
       · rw [(recE_fields _ _ _).2.2.2.1]; simp only [hge1]; exact hmem
+
+/-! ## what an entry keeps while it stays in the recycle bin -/
+
+/-- `P` holds in every state the history passes through (the first and the last included). -/
+def Always (P : State → Prop) : State → List (Nat × Op) → Prop
+  | s, [] => P s
+  | s, (ct, op) :: rest => P s ∧ Always P (next s ct op) rest
+
+/-- the entry is in the recycle bin -/
+def InBin (x : Nat) (s : State) : Prop := ∃ e, find s.es x = some e ∧ e.st = .recycled
+
+/-- the uuid is a live group -/
+def LiveGroupIn (g : Nat) (s : State) : Prop :=
+  ∃ ge, find s.es g = some ge ∧ ge.st = .live ∧ ge.kind = .group
+
+theorem Always.head {P : State → Prop} : ∀ {s : State} {steps : List (Nat × Op)}, Always P s steps → P s
+  | _, [], h => h
+  | _, _ :: _, h => h.1
+
+theorem kept_step {s : State} (hi : Inv s) {x : Nat} {e : Entry} (hx : find s.es x = some e)
+    (hr : e.st = .recycled) (ct : Nat) (op : Op) (hx' : InBin x (next s ct op)) :
+    ∃ e', find (next s ct op).es x = some e' ∧ e'.st = .recycled ∧ e'.casc = e.casc ∧
+      ∀ g ∈ e.rdmo, LiveGroupIn g (next s ct op) → g ∈ e'.rdmo := by
+  rcases next_facts hi ct op x with h | ⟨del, hf⟩
+  · rw [h]; exact ⟨e, hx, hr, rfl, fun g hg _ => hg⟩
+  · obtain ⟨e2, hfe2, hr2⟩ := hx'
+    rcases hf.old e hx with ⟨e', hfe', ev⟩ | ⟨hnone, _⟩
+    · rw [hfe2] at hfe'
+      cases hfe'
+      refine ⟨e2, hfe2, hr2, ev.cascKeep hr hr2, ?_⟩
+      intro g hg hlive
+      rcases ev.rdmoKeep hr hr2 g hg with h1 | h1
+      · exact h1
+      · obtain ⟨ge', hfg, hst⟩ := hf.dead g h1
+        obtain ⟨ge2, hfg2, hl2, _⟩ := hlive
+        rw [hfg] at hfg2
+        cases hfg2
+        rw [hst] at hl2; cases hl2
+    · rw [hnone] at hfe2; cases hfe2
+
+theorem kept_while_in_bin {x : Nat} : ∀ (steps : List (Nat × Op)) {s : State} {e : Entry}, Inv s →
+    find s.es x = some e → e.st = .recycled → Always (InBin x) s steps →
+    ∃ e1, find (run s steps).es x = some e1 ∧ e1.st = .recycled ∧ e1.casc = e.casc ∧
+      ∀ g ∈ e.rdmo, Always (LiveGroupIn g) s steps → g ∈ e1.rdmo
+  | [], _, e, _, hx, hr, _ => ⟨e, hx, hr, rfl, fun _ hg _ => hg⟩
+  | (ct, op) :: rest, s, e, hi, hx, hr, hal => by
+    obtain ⟨e', hfe', hr', hc', hg'⟩ := kept_step hi hx hr ct op hal.2.head
+    obtain ⟨e1, hf1, hr1, hc1, hg1⟩ := kept_while_in_bin rest (inv_next hi ct op) hfe' hr' hal.2
+    refine ⟨e1, hf1, hr1, by rw [hc1, hc'], ?_⟩
+    intro g hg hlive
+    exact hg1 g (hg' g hg hlive.2.head) hlive.2
+
+theorem Always.last {P : State → Prop} : ∀ (steps : List (Nat × Op)) (s : State), Always P s steps → P (run s steps)
+  | [], _, h => h
+  | (ct, op) :: rest, s, h => Always.last rest (next s ct op) h.2
+
+/-- A live entry referring to a deleted entry is deleted with it and carries the cascade mark. -/
+theorem delete_cascade {s : State} {ct : Nat} {ids : List Nat} {es' : List Entry}
+    {n : Option Nat} (h : apply s ct (.delete ids) = .ok es' n) {x c : Nat} {e ce : Entry}
+    (hfe : find s.es x = some e) (hel : e.st = .live) (hx : x ∈ ids)
+    (hfc : find s.es c = some ce) (hcl : ce.st = .live) (hcr : ce.refers = some x) :
+    ∃ ce', find es' c = some ce' ∧ ce'.st = .recycled ∧ ce'.casc = some x := by
+  obtain ⟨trim, _, hap⟩ := apply_ok h
+  simp only [applyOp, opDelete] at hap
+  split at hap
+  · cases hap
+  · split at hap
+    · cases hap
+    · split at hap
+      · cases hap
+      · rename_i hnopanic
+        simp only [List.map_map] at hap
+        cases hap
+        have hme := find_some_mem hfe
+        have hT : inT ids e = true := by simp [inT, hel, hme.2, hx]
+        have hC : inC s.es ids ce = true := by
+          simp only [inC, hcl, hcr, beq_self_eq_true, Bool.true_and, List.any_eq_true, Bool.and_eq_true,
+            beq_iff_eq]
+          exact ⟨e, hme.1, hT, hme.2⟩
+        have hD : inD s.es ids ce = true := by simp [inD, hC]
+        have hidF : ∀ a : Entry, (((unrefE ((s.es.filter (inD s.es ids)).map (·.id)) (txnTs s ct)) ∘
+            recycleE s.es ids (txnTs s ct)) a).id = a.id := fun a => by
+          simp [unrefE_id, recycleE_id]
+        refine ⟨_, by rw [find_recompute, find_map _ hidF, hfc]; rfl, ?_, ?_⟩
+        · rw [(recE_fields _ _ _).2.1]
+          exact (unref_recycle_st s.es ids _ _ hD).1
+        · rw [(recE_fields _ _ _).2.2.2.2.2.2]
+          simp only [Function.comp_apply]
+          have h1 : (recycleE s.es ids (txnTs s ct) ce).casc = some x := by
+            unfold recycleE; simp [hD, hC, deleteMarksCascade, hcr]
+          unfold unrefE
+          split <;> simp [h1]
 
 end Kanidm.Recycle
